@@ -12,6 +12,18 @@ impl Config {
     pub fn work_dir(&self) -> (r: Option<PathRef>) { unimplemented!() }
     #[verifier::external_body]
     pub fn blob(&self) -> (r: BlobConfig) { unimplemented!() }
+    pub uninterp spec fn allow_dup(&self) -> bool;
+    pub uninterp spec fn max_size(&self) -> Option<u64>;
+    pub uninterp spec fn max_count(&self) -> Option<u64>;
+    pub uninterp spec fn debounce_ms(&self) -> u64;
+    #[verifier::external_body]
+    pub fn allow_duplicates(&self) -> (r: bool) ensures r == self.allow_dup() { unimplemented!() }
+    #[verifier::external_body]
+    pub fn max_blob_size(&self) -> (r: Option<u64>) ensures r == self.max_size() { unimplemented!() }
+    #[verifier::external_body]
+    pub fn max_data_in_blob(&self) -> (r: Option<u64>) ensures r == self.max_count() { unimplemented!() }
+    #[verifier::external_body]
+    pub fn debounce_interval_ms(&self) -> (r: u64) ensures r == self.debounce_ms() { unimplemented!() }
 }
 // &Path
 #[verifier::external_body]
